@@ -1,11 +1,15 @@
 #!/bin/bash
+# usage: seed_round.sh <suffix...> : runs the seeded changes whose name ends in one of the suffixes
+# (e.g. m5 m6) against their property's quick check, appending to seeded/RESULTS.tsv
 export GOFLAGS=-mod=mod GOPROXY=off GOSUMDB=off GOTOOLCHAIN=local
 cd /verif
-for d in seeded/C*-m3 seeded/C*-m4; do
+for suf in "$@"; do
+for d in seeded/C*-$suf; do
   n=$(basename $d); p=${n%%-*}
   t0=$(date +%s)
   out=$(tools/seed_run.sh $p $n quick 2>&1 | tr '\n' ' ' | cut -c1-300)
   t1=$(date +%s)
   case "$out" in *VIOLATION*) v=DETECTED;; *) v=MISSED;; esac
   printf "%s\t%s\t%s\t%ss\t%s\n" "$n" "quick" "$v" "$((t1-t0))" "$out" >> seeded/RESULTS.tsv
+done
 done
